@@ -17,7 +17,11 @@ static char g_src_k;        /* source byte at the witness index, at call time */
 #else
 #include "lowered.c"
 #endif
+#ifdef NO_ALLOCATOR_TYPE /* units whose lowered text never mentions the allocator (read-only routines) */
+struct Allocator { void *_vptr; };
+#endif
 #include "alloc.h"
+#define GONE ((size_t)-1) /* ledger_size() of a block that is not live */
 
 typedef struct StringNode Node;
 typedef __typeof__(((Node *)0)->length) len_t;      /* StringNode::length_type of this configuration */
@@ -88,7 +92,7 @@ void h_node_resize(void) {
   if (len1 > MAXLEN) {
     CHECK(r == 0, "C19: a length above maxLength is refused");
     CHECK(g_realloc_calls == 0, "C06: the cap is checked before the allocator is asked to grow");
-    CHECK(g_dealloc_calls == 1 && g_live_blocks == 0 && ledger_size(n, 77) == 77, "the node is released exactly once");
+    CHECK(g_dealloc_calls == 1 && g_live_blocks == 0 && ledger_size(n, GONE) == GONE, "the node is released exactly once");
   } else {
     CHECK(g_realloc_calls == 1, "exactly one reallocate");
     if (r) {
@@ -103,7 +107,7 @@ void h_node_resize(void) {
       CHECK(r->data[k] == ck, "bytes that fit both sizes are preserved");
     } else {
       CHECK(len1 > len0, "only a growing reallocate fails (assumption of the property, encoded by the stub)");
-      CHECK(g_dealloc_calls == 1 && g_live_blocks == 0 && ledger_size(n, 77) == 77,
+      CHECK(g_dealloc_calls == 1 && g_live_blocks == 0 && ledger_size(n, GONE) == GONE,
             "C05/C06: failed growth releases the old block exactly once");
     }
   }
@@ -124,7 +128,646 @@ void h_node_destroy(void) {
   CHECK(g_dealloc_calls == 1, "destroy calls deallocate exactly once");
 #endif
   CHECK(g_alloc_calls == 0 && g_realloc_calls == 0, "destroy requests nothing");
-  CHECK(ledger_size(n, 77) == 77 && g_live_blocks == 1, "exactly that block left the ledger");
-  CHECK(ledger_size(other, 77) == spec_block_size(0) && other->references == 1, "another node is untouched");
+  CHECK(ledger_size(n, GONE) == GONE && g_live_blocks == 1, "exactly that block left the ledger");
+  CHECK(ledger_size(other, GONE) == spec_block_size(0) && other->references == 1, "another node is untouched");
+}
+#endif
+
+/* ------------------------------------------------------------------------------------------------------------------- */
+/* Bounded string lists (class B: at most MAXN nodes, every shape 0..MAXN, symbolic reference counts and length fields).
+ * The list routines only do pointer/integer work on the node headers, so the blocks are header-sized and the ledger records
+ * the size the real block would have. */
+#if defined(U_POOL) || defined(U_GET)
+#define MAXN 3
+static Node *g_nodes[MAXN];
+static unsigned g_n;
+static Node *mk_hdr_node(void) {
+  Node *n = malloc(sizeof(Node));
+  __CPROVER_assume(n != 0);
+  n->next = 0;
+  n->references = (ref_t)in_u32();
+  __CPROVER_assume(n->references >= 1); /* WF_STRINGS: a pooled node has at least one user */
+  n->length = (len_t)in_u32();
+  ledger_add(n, spec_block_size(n->length));
+  return n;
+}
+static void mk_pool(struct StringPool *sp) {
+  g_n = in_u8();
+  __CPROVER_assume(g_n <= MAXN);
+  if (g_n > 0) g_nodes[0] = mk_hdr_node();
+  if (g_n > 1) g_nodes[1] = mk_hdr_node();
+  if (g_n > 2) g_nodes[2] = mk_hdr_node();
+  if (g_n > 1) g_nodes[0]->next = g_nodes[1];
+  if (g_n > 2) g_nodes[1]->next = g_nodes[2];
+  sp->strings_ = g_n ? g_nodes[0] : 0;
+}
+#endif
+
+/* =================================================================================================================== */
+#ifdef U_POOL
+/* StringPool::add(node) / dereference / clear / size -- the real routines (StringNode::destroy included). */
+void h_pool_add_node(void) {
+  struct StringPool sp;
+  mk_pool(&sp);
+  Node *old_head = sp.strings_;
+  Node *n = mk_hdr_node();
+  ref_t refs = n->references;
+  len_t len = n->length;
+  StringPool__add(&sp, n);
+  COVER(old_head != 0); COVER(old_head == 0);
+#ifdef CANARY_POOL_ADDNODE
+  CHECK(sp.strings_ == n && n->next == (old_head ? old_head->next : 0), "the node is linked at the head, in front of the old list");
+#else
+  CHECK(sp.strings_ == n && n->next == old_head, "the node is linked at the head, in front of the old list");
+#endif
+  CHECK(n->references == refs && n->length == len, "linking changes neither the count nor the length");
+  CHECK(g_alloc_calls + g_realloc_calls + g_dealloc_calls == 0, "no allocator call");
+}
+
+void h_pool_dereference(void) {
+  struct StringPool sp;
+  mk_pool(&sp);
+  struct Allocator *a = verif_allocator(0);
+  g_expected_allocator = a;
+  Node *foreign = mk_hdr_node(); /* a node that is NOT in the pool (e.g. a builder's private node) */
+  unsigned j = in_u8();
+  __CPROVER_assume(j <= MAXN);
+  _Bool found = j < g_n;
+  char *s = found ? g_nodes[j]->data : foreign->data;
+  /* snapshot */
+  ref_t r0[MAXN + 1]; len_t l0[MAXN]; Node *nx0[MAXN];
+  for (unsigned i = 0; i < MAXN; i++) if (i < g_n) { r0[i] = g_nodes[i]->references; l0[i] = g_nodes[i]->length; nx0[i] = g_nodes[i]->next; }
+  r0[MAXN] = foreign->references;
+  Node *head0 = sp.strings_;
+  int live0 = g_live_blocks;
+  StringPool__dereference(&sp, s, a);
+  _Bool freed = found && r0[j] == 1;
+  COVER(!found && g_n == MAXN); COVER(found && !freed); COVER(freed && j == 0); COVER(freed && j == 1 && g_n == 3); COVER(freed && j == 2);
+  CHECK(g_alloc_calls == 0 && g_realloc_calls == 0, "dereference requests nothing");
+  CHECK(g_dealloc_calls == (freed ? 1u : 0u) && g_live_blocks == live0 - (freed ? 1 : 0),
+        "C06: a block is released iff the count of the designated node reaches zero, exactly once");
+  CHECK(foreign->references == r0[MAXN], "a node outside the pool is never touched");
+  for (unsigned i = 0; i < MAXN; i++) if (i < g_n) {
+    if (freed && i == j) {
+      CHECK(ledger_size(g_nodes[i], GONE) == GONE, "the released block is that node's");
+    } else {
+#ifdef CANARY_POOL_DEREF
+      CHECK(g_nodes[i]->references == (ref_t)(r0[i] - ((found && i == j) || (found && j == 2 && i == 1) ? 1 : 0)), "exactly the node whose data == s loses one user");
+#else
+      CHECK(g_nodes[i]->references == (ref_t)(r0[i] - (found && i == j ? 1 : 0)), "exactly the node whose data == s loses one user");
+#endif
+      CHECK(g_nodes[i]->length == l0[i] && ledger_size(g_nodes[i], GONE) == spec_block_size(l0[i]), "other nodes stay live and unchanged");
+      /* successor: unchanged, except that the predecessor of a released node now skips it */
+      Node *want = (freed && i + 1 == j) ? nx0[j] : nx0[i];
+      CHECK(g_nodes[i]->next == want, "list order is kept; only a released node is unlinked");
+    }
+  }
+  CHECK(sp.strings_ == ((freed && j == 0) ? nx0[0] : head0), "head changes only when the first node is released");
+}
+
+void h_pool_clear(void) {
+  struct StringPool sp;
+  mk_pool(&sp);
+  struct Allocator *a = verif_allocator(0);
+  g_expected_allocator = a;
+  Node *foreign = mk_hdr_node();
+  StringPool__clear(&sp, a);
+  COVER(g_n == 0); COVER(g_n == MAXN);
+  CHECK(sp.strings_ == 0, "clear leaves an empty pool");
+  CHECK(g_alloc_calls == 0 && g_realloc_calls == 0, "clear requests nothing");
+#ifdef CANARY_POOL_CLEAR
+  CHECK(g_dealloc_calls == g_n + (g_n == 2), "C06: every node is released exactly once");
+#else
+  CHECK(g_dealloc_calls == g_n, "C06: every node is released exactly once");
+#endif
+  CHECK(g_live_blocks == 1 && ledger_size(foreign, GONE) != GONE, "C06: no pooled block stays live; blocks outside the pool are not released");
+  for (unsigned i = 0; i < MAXN; i++) if (i < g_n) CHECK(ledger_size(g_nodes[i], GONE) == GONE, "each node left the ledger");
+}
+
+void h_pool_size(void) {
+  struct StringPool sp;
+  mk_pool(&sp);
+  uint64_t want = 0;
+  for (unsigned i = 0; i < MAXN; i++) if (i < g_n) want += spec_block_size(g_nodes[i]->length);
+  size_t got = StringPool__size(&sp);
+  COVER(g_n == MAXN); COVER(g_n == 0);
+#ifdef CANARY_POOL_SIZE
+  CHECK(got == want + (g_n == 2), "size() is the sum of the block sizes of the pooled strings");
+#else
+  CHECK(got == want, "size() is the sum of the block sizes of the pooled strings");
+#endif
+  CHECK(g_alloc_calls + g_realloc_calls + g_dealloc_calls == 0, "size() never calls the allocator");
+}
+#endif
+
+/* =================================================================================================================== */
+#ifdef U_GET
+/* StringPool::get<SizedRamString>(str) against the CONTRACT of stringEquals (proved for every length by
+ * cmp_strings_unbounded/string_loops_* and on concrete strings by cmp_strings): the result is a function of the two
+ * (length, bytes) pairs only.  The stub answers with one oracle bit per pooled node (g_eq[i] == "node i has the length and
+ * bytes of str") and checks that get() hands it exactly (str, (node->data, node->length)). */
+static struct SizedRamString g_str;
+static _Bool g_eq[MAXN];
+static unsigned g_eq_calls;
+_Bool stringEquals_SizedRamString_SizedRamString(struct SizedRamString s1, struct SizedRamString s2) {
+  CHECK(s1.str_ == g_str.str_ && s1.size_ == g_str.size_, "get compares the caller's string (pointer and size unchanged)");
+  g_eq_calls++;
+  for (unsigned i = 0; i < MAXN; i++) if (i < g_n && s2.str_ == g_nodes[i]->data) {
+    CHECK(s2.size_ == (size_t)g_nodes[i]->length, "against a pooled node's bytes with that node's full length");
+    return g_eq[i];
+  }
+  CHECK(0, "get compares only against pooled nodes");
+  return 0;
+}
+void h_pool_get(void) {
+  struct StringPool sp;
+  mk_pool(&sp);
+  char src[1];
+  g_str.str_ = src;
+  g_str.size_ = in_size();
+  g_eq[0] = in_bool(); g_eq[1] = in_bool(); g_eq[2] = in_bool();
+  ref_t r0[MAXN]; Node *nx0[MAXN];
+  for (unsigned i = 0; i < MAXN; i++) if (i < g_n) { r0[i] = g_nodes[i]->references; nx0[i] = g_nodes[i]->next; }
+  Node *head0 = sp.strings_;
+  Node *r = StringPool__get_SizedRamString(&sp, &g_str);
+  Node *want = 0;
+  if (g_n > 2 && g_eq[2]) want = g_nodes[2];
+  if (g_n > 1 && g_eq[1]) want = g_nodes[1];
+  if (g_n > 0 && g_eq[0]) want = g_nodes[0];
+  COVER(r == 0 && g_n == MAXN); COVER(r != 0 && r == g_nodes[2]); COVER(r != 0 && r == g_nodes[0] && g_eq[1]); COVER(g_n == 0);
+#ifdef CANARY_POOL_GET
+  CHECK(r == want || (g_n == 3 && !g_eq[0] && !g_eq[1] && g_eq[2]), "get returns the first pooled node equal to str, or null when none is");
+  CHECK(!(g_n == 3 && !g_eq[0] && !g_eq[1] && g_eq[2]) || r == 0, "canary: deliberately false when only the last node matches");
+#else
+  CHECK(r == want, "get returns the first pooled node equal to str, or null when none is");
+#endif
+  CHECK(sp.strings_ == head0, "get does not modify the pool");
+  for (unsigned i = 0; i < MAXN; i++) if (i < g_n) CHECK(g_nodes[i]->references == r0[i] && g_nodes[i]->next == nx0[i], "get does not modify any node");
+}
+#endif
+
+/* =================================================================================================================== */
+#ifdef U_CHARS
+/* stringGetChars<SizedRamString>(s, p, n): the byte-copy loop, closed by a loop contract (strings.loops.json) with a witness
+ * index g_k: for an ARBITRARY k < n, p[k] == s[k] afterwards; nothing outside p[0..n) is written (assigns clause of the loop,
+ * checked by the instrumentation, plus the guard bytes below); the source is only read. */
+void h_get_chars(void) {
+  size_t n = in_size();
+  __CPROVER_assume(n <= MAXLEN); /* caller: StringNode::create(n) succeeded */
+  Node *nd = malloc(spec_block_size(n));
+  char *src = malloc(n + 1);
+  __CPROVER_assume(nd != 0 && src != 0);
+  nd->length = (len_t)n;
+  nd->references = 1;
+  nd->data[n] = 0x55; /* guard byte just behind the destination range */
+  g_k = in_size();
+  __CPROVER_assume(g_k < n || n == 0);
+  g_src_k = in_char();
+  if (n) src[g_k] = g_src_k;
+  struct SizedRamString s;
+  s.str_ = src;
+  s.size_ = n;
+  stringGetChars_SizedRamString(s, nd->data, n);
+  COVER(n == 0); COVER(n == MAXLEN && g_k == n - 1); COVER(n > 1 && g_k == 0);
+  if (n) {
+#ifdef CANARY_GET_CHARS
+    CHECK(nd->data[g_k] == (char)(g_src_k + (g_k == 2)), "C14: every copied byte equals the source byte at call time");
+#else
+    CHECK(nd->data[g_k] == g_src_k, "C14: every copied byte equals the source byte at call time");
+#endif
+    CHECK(src[g_k] == g_src_k, "the source is not modified");
+  }
+  CHECK(nd->data[n] == 0x55, "nothing is written behind the n bytes");
+  CHECK((uint64_t)nd->length == n && nd->references == 1, "the node header is not touched");
+}
+#endif
+
+/* =================================================================================================================== */
+#ifdef U_ADD
+/* StringPool::add<SizedRamString>(str, allocator), loop-free once its three callees are taken by contract:
+ *   get(str)               : a pooled node with the length and bytes of str, or null when none   (strpool_get/pool_get)
+ *   StringNode::create(n,a): n > maxLength => null WITHOUT allocator call; else null, or a block of n+1+offsetof(data) bytes
+ *                            with length == n, references == 1                                   (strnode/node_create)
+ *   stringGetChars(s,p,n)  : p[k] == s[k] for every k < n, nothing else written, s only read      (strchars/get_chars)
+ * The stubs also check WHAT they are handed and in which order. */
+static struct StringPool *g_pool;
+static struct SizedRamString g_str;
+static Node *g_get_ret, *g_created;
+static unsigned g_get_calls, g_create_calls, g_chars_calls;
+static char *g_chars_dst;
+Node *StringPool__get_SizedRamString(struct StringPool *self, struct SizedRamString *str) {
+  CHECK(self == g_pool, "lookup in the same pool");
+  CHECK(str->str_ == g_str.str_ && str->size_ == g_str.size_, "lookup of the caller's string");
+  CHECK(g_create_calls == 0, "the lookup precedes any allocation");
+  g_get_calls++;
+  return g_get_ret;
+}
+Node *StringNode__create(size_t length, struct Allocator *a) {
+  CHECK(a == g_expected_allocator, "create receives the caller's allocator");
+  CHECK(length == g_str.size_, "the block is requested for exactly the source length");
+  g_create_calls++;
+  if (length > MAXLEN) return 0;
+  Node *n = Allocator__allocate(a, spec_block_size(length));
+  if (n) { n->length = (len_t)length; n->references = 1; }
+  g_created = n;
+  return n;
+}
+void stringGetChars_SizedRamString(struct SizedRamString s, char *p, size_t n) {
+  CHECK(s.str_ == g_str.str_ && s.size_ == g_str.size_ && n == g_str.size_, "all n source bytes are copied");
+  CHECK(g_created != 0 && p == g_created->data, "into the data area of the new node");
+  g_chars_calls++;
+  g_chars_dst = p;
+  if (g_k < n) p[g_k] = s.str_[g_k];
+}
+void h_pool_add_str(void) {
+  struct StringPool sp;
+  g_pool = &sp;
+  struct Allocator *a = verif_allocator(0);
+  g_expected_allocator = a;
+  /* the pool: get() is abstract, so only the head pointer matters; it is a node (possibly the de-dup hit) or null */
+  Node *head = in_bool() ? mk_real_node(0, 1) : 0;
+  sp.strings_ = head;
+  _Bool hit = in_bool();
+  ref_t refs0 = (ref_t)in_u32();
+  __CPROVER_assume(refs0 >= 1 && (uint64_t)refs0 < REF_MAX); /* caller obligation L-C06: fewer users than 2^(8*SLOT_ID_SIZE)-1 */
+  g_get_ret = hit ? mk_real_node(0, refs0) : 0;
+  size_t n = in_size();
+  /* the source: n bytes (when n is beyond the cap the code must not read it at all: one byte is provided) */
+  char *src = malloc(n <= MAXLEN ? n + 1 : 1);
+  __CPROVER_assume(src != 0);
+  g_str.str_ = src;
+  g_str.size_ = n;
+  g_k = in_size();
+  __CPROVER_assume(g_k < n || n == 0);
+  g_src_k = in_char();
+  if (n && n <= MAXLEN) src[g_k] = g_src_k;
+  int live0 = g_live_blocks;
+  Node *r = StringPool__add_SizedRamString(&sp, g_str, a);
+  COVER(hit); COVER(!hit && r != 0 && n == 0); COVER(!hit && r != 0 && n == MAXLEN); COVER(!hit && n > MAXLEN);
+  COVER(!hit && r == 0 && n <= MAXLEN); COVER(!hit && r != 0 && head != 0);
+  CHECK(g_get_calls == 1, "exactly one lookup");
+  CHECK(g_dealloc_calls == 0 && g_realloc_calls == 0, "add never releases or resizes");
+  if (hit) {
+    CHECK(r == g_get_ret, "C06: an equal pooled string is returned instead of a second copy");
+#ifdef CANARY_POOL_ADDSTR
+    CHECK((uint64_t)r->references == (uint64_t)refs0 + 1 + (refs0 == 9), "C06: the shared node gains exactly one user (no wrap)");
+#else
+    CHECK((uint64_t)r->references == (uint64_t)refs0 + 1, "C06: the shared node gains exactly one user (no wrap)");
+#endif
+    CHECK(g_create_calls == 0 && g_alloc_calls == 0 && g_chars_calls == 0, "C06: de-duplication allocates and copies nothing");
+    CHECK(sp.strings_ == head, "the list is unchanged");
+  } else if (n > MAXLEN) {
+    CHECK(r == 0 && g_alloc_calls == 0, "C19/C06: a string longer than maxLength is refused before any allocation");
+    CHECK(sp.strings_ == head && g_chars_calls == 0, "the list is unchanged");
+  } else {
+    CHECK(g_create_calls == 1 && g_alloc_calls == 1, "exactly one block is requested");
+    if (r) {
+      CHECK(r == g_created && g_live_blocks == live0 + 1 && ledger_size(r, GONE) == spec_block_size(n), "one new block of n+1+offsetof(data) bytes");
+      CHECK((uint64_t)r->length == n && r->references == 1, "length stored without truncation, one user");
+      CHECK(g_chars_calls == 1, "the bytes are copied once");
+      if (n) CHECK(r->data[g_k] == g_src_k && src[g_k] == g_src_k, "C14: the copy equals the source at call time; the source is intact");
+      CHECK(r->data[n] == 0, "the copy is NUL-terminated inside its block");
+      CHECK(sp.strings_ == r && r->next == head, "the new node is linked at the head");
+      CHECK(r->data != src, "C14: the copy lives in its own block (independent of the source)");
+    } else {
+      CHECK(sp.strings_ == head && g_live_blocks == live0 && g_chars_calls == 0, "C05: allocation failure => null, pool unchanged");
+    }
+  }
+  if (head) CHECK(head->references == 1 && head->length == 0 && head->next == 0, "existing nodes are not modified");
+}
+#endif
+
+/* =================================================================================================================== */
+#ifdef U_RM
+/* ResourceManager string entry points: saveString<SizedRamString>, saveString<StaticStringAdapter>, saveString(node),
+ * getString, createString, resizeString, destroyString, dereferenceString.  Pure dispatch once the pool/node routines are
+ * stubs that record their arguments and return an arbitrary result (their contracts: strnode, strpool, strpool_get,
+ * strpool_add).  Clauses: C05 "a null result makes overflowed() true", "overflowed_ is never reset here", a null string is
+ * not an overflow; C06 "every call carries the document's allocator". */
+static struct ResourceManager *g_rm;
+static unsigned g_calls, g_which;
+static Node *g_ret, *g_arg_node;
+static size_t g_arg_len;
+static char *g_arg_ptr;
+static void rm_common(struct Allocator *a, int which) {
+  if (a) CHECK(a == g_rm->allocator_, "C06: the callee receives the document's allocator");
+  g_calls++;
+  g_which = which;
+}
+Node *StringPool__add_SizedRamString(struct StringPool *self, struct SizedRamString str, struct Allocator *a) {
+  CHECK(self == &g_rm->stringPool_, "the document's own pool");
+  rm_common(a, 1); g_arg_ptr = str.str_; g_arg_len = str.size_;
+  return g_ret;
+}
+Node *StringPool__add_StaticStringAdapter(struct StringPool *self, struct StaticStringAdapter str, struct Allocator *a) {
+  CHECK(self == &g_rm->stringPool_, "the document's own pool");
+  rm_common(a, 2); g_arg_ptr = str._b_ZeroTerminatedRamString.str_;
+  return g_ret;
+}
+void StringPool__add(struct StringPool *self, Node *node) {
+  CHECK(self == &g_rm->stringPool_, "the document's own pool");
+  rm_common(0, 3); g_arg_node = node;
+}
+Node *StringPool__get_SizedRamString(struct StringPool *self, struct SizedRamString *str) {
+  CHECK(self == &g_rm->stringPool_, "the document's own pool");
+  rm_common(0, 4); g_arg_ptr = str->str_; g_arg_len = str->size_;
+  return g_ret;
+}
+Node *StringNode__create(size_t length, struct Allocator *a) { rm_common(a, 5); g_arg_len = length; return g_ret; }
+Node *StringNode__resize(Node *node, size_t length, struct Allocator *a) { rm_common(a, 6); g_arg_node = node; g_arg_len = length; return g_ret; }
+void StringNode__destroy(Node *node, struct Allocator *a) { rm_common(a, 7); g_arg_node = node; }
+void StringPool__dereference(struct StringPool *self, char *s, struct Allocator *a) {
+  CHECK(self == &g_rm->stringPool_, "the document's own pool");
+  rm_common(a, 8); g_arg_ptr = s;
+}
+void h_rm_strings(void) {
+  struct ResourceManager *rm = malloc(sizeof *rm);
+  __CPROVER_assume(rm != 0);
+  g_rm = rm;
+  struct Allocator *a = verif_allocator(0);
+  rm->allocator_ = a;
+  _Bool ov0 = in_bool();
+  rm->overflowed_ = ov0;
+  Node *head = in_bool() ? mk_real_node(0, 1) : 0;
+  rm->stringPool_.strings_ = head;
+  Node *some = mk_real_node(0, 1);
+  g_ret = in_bool() ? some : 0;
+  Node *argn = mk_real_node(0, 1);
+  char buf[2] = {'x', 0};
+  _Bool null_str = in_bool();
+  size_t len = in_size();
+  unsigned op = in_u8();
+  __CPROVER_assume(op >= 1 && op <= 8);
+  Node *r = 0;
+  _Bool returns_node = 0;
+  struct SizedRamString srs; srs.str_ = null_str ? (char *)0 : &buf[0]; srs.size_ = len;
+  struct StaticStringAdapter ssa; ssa._b_ZeroTerminatedRamString.str_ = null_str ? (char *)0 : &buf[0];
+  switch (op) {
+    case 1: r = ResourceManager__saveString_SizedRamString(rm, srs); returns_node = 1; break;
+    case 2: r = ResourceManager__saveString_StaticStringAdapter(rm, ssa); returns_node = 1; break;
+    case 3: ResourceManager__saveString(rm, argn); break;
+    case 4: r = ResourceManager__getString_SizedRamString(rm, &srs); break;
+    case 5: r = ResourceManager__createString(rm, len); returns_node = 1; break;
+    case 6: r = ResourceManager__resizeString(rm, argn, len); returns_node = 1; break;
+    case 7: ResourceManager__destroyString(rm, argn); break;
+    default: ResourceManager__dereferenceString(rm, buf); break;
+  }
+  _Bool skipped = (op == 1 || op == 2) && null_str;
+  COVER(op == 1 && r == 0 && !null_str && !ov0); COVER(op == 1 && null_str); COVER(op == 2 && r != 0); COVER(op == 3); COVER(op == 4 && r != 0);
+  COVER(op == 5 && r == 0 && !ov0); COVER(op == 5 && r != 0 && ov0); COVER(op == 6 && r == 0); COVER(op == 7); COVER(op == 8);
+  CHECK(rm->allocator_ == a && rm->stringPool_.strings_ == head, "the entry points themselves change neither allocator nor pool head");
+  if (skipped) {
+    CHECK(r == 0 && g_calls == 0, "C14/C05: a null string is not stored: 0 is returned and the pool is not asked");
+    CHECK(rm->overflowed_ == ov0, "C05: a null string is not an overflow");
+  } else {
+    CHECK(g_calls == 1 && g_which == op, "exactly one call of the matching pool/node routine");
+    if (op != 3 && op != 7 && op != 8) CHECK(r == g_ret, "its result is returned unchanged");
+    if (returns_node) {
+#ifdef CANARY_RM
+      CHECK(rm->overflowed_ == (ov0 || (r == 0 && op != 6)), "C05: a null result makes overflowed() true; overflowed_ is never reset");
+#else
+      CHECK(rm->overflowed_ == (ov0 || r == 0), "C05: a null result makes overflowed() true; overflowed_ is never reset");
+#endif
+    } else {
+      CHECK(rm->overflowed_ == ov0, "lookups and releases leave overflowed_ alone");
+    }
+    if (op == 1 || op == 4) CHECK(g_arg_ptr == srs.str_ && g_arg_len == len, "the string is passed on unchanged");
+    if (op == 2 || op == 8) CHECK(g_arg_ptr == &buf[0], "the pointer is passed on unchanged");
+    if (op == 5 || op == 6) CHECK(g_arg_len == len, "the requested length is passed on unchanged");
+    if (op == 3 || op == 6 || op == 7) CHECK(g_arg_node == argn, "the node is passed on unchanged");
+  }
+}
+#endif
+
+/* ------------------------------------------------------------------------------------------------------------------- */
+#if defined(U_BUILDER) || defined(U_SAVE)
+static struct ResourceManager *mk_rm(struct Allocator *a) {
+  struct ResourceManager *rm = malloc(sizeof *rm);
+  __CPROVER_assume(rm != 0);
+  rm->allocator_ = a;
+  rm->overflowed_ = in_bool();
+  rm->stringPool_.strings_ = 0;
+  g_expected_allocator = a;
+  return rm;
+}
+/* builder / buffer pre-state.  INV (representation invariant of both classes): node_ != 0 => size_ <= node_->length, and
+ * the node is a private block of sizeForLength(length) bytes that is NOT in the pool. */
+static Node *mk_private_node(size_t *len_out) {
+  size_t len = in_size();
+  __CPROVER_assume(len <= MAXLEN);
+  *len_out = len;
+  return mk_real_node(len, 1);
+}
+#endif
+
+/* =================================================================================================================== */
+#ifdef U_BUILDER
+/* StringBuilder::startString/append(char)/str/isValid/~StringBuilder and StringBuffer::reserve/str/~StringBuffer with the
+ * REAL ResourceManager::createString/resizeString/destroyString and StringNode::create/resize/destroy underneath; the only
+ * stub is the allocator.  Blocks have their real (symbolic) size, so every data[...] access is bounds-checked by cbmc. */
+void h_builder_start(void) {
+  struct Allocator *a = verif_allocator(0);
+  struct ResourceManager *rm = mk_rm(a);
+  _Bool ov0 = rm->overflowed_;
+  struct StringBuilder b;
+  b.resources_ = rm;
+  _Bool has = in_bool();
+  size_t len0 = 0;
+  Node *n0 = has ? mk_private_node(&len0) : 0;
+  b.node_ = n0;
+  b.size_ = in_size();
+  __CPROVER_assume(!has || b.size_ <= len0);
+  int live0 = g_live_blocks;
+  StringBuilder__startString(&b);
+  COVER(has); COVER(!has && b.node_ != 0); COVER(!has && b.node_ == 0 && !ov0);
+  CHECK(b.size_ == 0, "startString empties the builder");
+  CHECK(g_dealloc_calls == 0 && g_realloc_calls == 0, "startString never releases or resizes");
+  if (has) {
+    CHECK(b.node_ == n0 && g_alloc_calls == 0 && (uint64_t)n0->length == len0, "C06: an existing node is reused, no allocation");
+    CHECK(rm->overflowed_ == ov0, "overflowed_ untouched");
+  } else {
+    CHECK(g_alloc_calls == 1, "exactly one block is requested when there is no node");
+    if (b.node_) {
+#ifdef CANARY_BUILDER_START
+      CHECK(b.node_->length == 32 && ledger_size(b.node_, GONE) == spec_block_size(31), "initial capacity 31");
+#else
+      CHECK(b.node_->length == 31 && ledger_size(b.node_, GONE) == spec_block_size(31), "initial capacity 31");
+#endif
+      CHECK(b.node_->references == 1 && g_live_blocks == live0 + 1 && rm->overflowed_ == ov0, "one new block, overflowed_ untouched");
+    } else {
+      CHECK(rm->overflowed_ && g_live_blocks == live0, "C05: failure is reported by overflowed() and leaves nothing live");
+      CHECK(!StringBuilder__isValid(&b), "the builder is invalid");
+    }
+  }
+  CHECK(rm->allocator_ == a, "allocator unchanged");
+}
+
+void h_builder_append(void) {
+  struct Allocator *a = verif_allocator(0);
+  struct ResourceManager *rm = mk_rm(a);
+  _Bool ov0 = rm->overflowed_;
+  struct StringBuilder b;
+  b.resources_ = rm;
+  _Bool has = in_bool();
+  size_t len0 = 0;
+  Node *n0 = has ? mk_private_node(&len0) : 0;
+  b.node_ = n0;
+  size_t size0 = in_size();
+  b.size_ = size0;
+  __CPROVER_assume(!has || size0 <= len0); /* INV */
+  size_t k = in_size(); /* witness: an earlier byte of the string under construction */
+  __CPROVER_assume(k < size0 || !has || size0 == 0);
+  char ck = in_char(), c = in_char();
+  if (has && size0) n0->data[k] = ck;
+  int live0 = g_live_blocks;
+  StringBuilder__append__char(&b, c);
+  _Bool full = has && size0 == len0;
+  uint64_t newlen = (uint64_t)size0 * 2 + 1; /* size0 <= maxLength <= 2^32-1: no wrap in 64 bits */
+  COVER(!has); COVER(has && !full); COVER(full && b.node_ != 0); COVER(full && b.node_ == 0 && newlen <= MAXLEN); COVER(full && newlen > MAXLEN);
+  COVER(full && b.node_ != 0 && size0 == 0);
+  CHECK(g_alloc_calls == 0, "append never calls allocate");
+  if (!has) {
+    CHECK(b.node_ == 0 && b.size_ == size0 && g_realloc_calls + g_dealloc_calls == 0 && rm->overflowed_ == ov0,
+          "C05: after a failed growth later appends are no-ops");
+    CHECK(!StringBuilder__isValid(&b), "isValid() stays false");
+  } else if (!full) {
+    CHECK(g_realloc_calls + g_dealloc_calls == 0 && b.node_ == n0, "room left: no allocator call");
+#ifdef CANARY_BUILDER_APPEND
+    CHECK(n0->data[size0] == (char)(c + (size0 == 4)) && b.size_ == size0 + 1, "the character is stored at data[size_], size_ grows by one");
+#else
+    CHECK(n0->data[size0] == c && b.size_ == size0 + 1, "the character is stored at data[size_], size_ grows by one");
+#endif
+    CHECK(rm->overflowed_ == ov0 && (uint64_t)n0->length == len0, "nothing else changes");
+    if (size0) CHECK(n0->data[k] == ck, "earlier characters are kept");
+  } else if (b.node_) {
+    CHECK(newlen <= MAXLEN, "C19: growth succeeds only within maxLength");
+    CHECK(g_realloc_calls == 1 && g_dealloc_calls == 0 && g_live_blocks == live0, "one reallocate, still exactly one block");
+    CHECK((uint64_t)b.node_->length == newlen && ledger_size(b.node_, GONE) == spec_block_size(newlen), "capacity grows to 2*size_+1 (no truncation)");
+    CHECK(b.node_->data[size0] == c && b.size_ == size0 + 1, "the character is stored at data[size_], size_ grows by one");
+    if (size0) CHECK(b.node_->data[k] == ck, "earlier characters are kept across growth");
+    CHECK(rm->overflowed_ == ov0 && StringBuilder__isValid(&b), "overflowed_ untouched, builder valid");
+  } else {
+    CHECK(g_realloc_calls == (newlen <= MAXLEN ? 1u : 0u), "C19/C06: beyond maxLength the allocator is not even asked");
+    CHECK(g_dealloc_calls == 1 && g_live_blocks == live0 - 1 && ledger_size(n0, GONE) == GONE, "C05/C06: failed growth releases the old block exactly once");
+    CHECK(rm->overflowed_ && !StringBuilder__isValid(&b), "C05: failure reported by overflowed(), isValid() false");
+  }
+  if (b.node_) CHECK(b.size_ <= (size_t)b.node_->length, "INV preserved: size_ <= node_->length");
+}
+
+void h_builder_str(void) {
+  struct Allocator *a = verif_allocator(0);
+  struct ResourceManager *rm = mk_rm(a);
+  struct StringBuilder b;
+  b.resources_ = rm;
+  size_t len0;
+  Node *n0 = mk_private_node(&len0);
+  b.node_ = n0;
+  size_t size0 = in_size();
+  b.size_ = size0;
+  __CPROVER_assume(size0 <= len0); /* INV */
+  size_t k = in_size();
+  __CPROVER_assume(k < size0 || size0 == 0);
+  char ck = in_char();
+  if (size0) n0->data[k] = ck;
+  struct JsonString js = StringBuilder__str(&b);
+  COVER(size0 == len0); COVER(size0 == 0 && len0 > 0);
+  CHECK(js.data_ == n0->data && js.size_ == size0, "str() designates the size_ characters built so far");
+#ifdef CANARY_BUILDER_STR
+  CHECK(n0->data[size0] == (size0 == 2), "str() NUL-terminates at data[size_] (inside the block)");
+#else
+  CHECK(n0->data[size0] == 0, "str() NUL-terminates at data[size_] (inside the block)");
+#endif
+  if (size0) CHECK(n0->data[k] == ck, "characters untouched");
+  CHECK(js.ownership_ == 0, "reported as a copied string");
+  CHECK(b.node_ == n0 && b.size_ == size0 && (uint64_t)n0->length == len0, "builder state unchanged");
+  CHECK(g_alloc_calls + g_realloc_calls + g_dealloc_calls == 0, "no allocator call");
+}
+
+void h_builder_dtor(void) {
+  struct Allocator *a = verif_allocator(0);
+  struct ResourceManager *rm = mk_rm(a);
+  _Bool ov0 = rm->overflowed_;
+  struct StringBuilder b;
+  b.resources_ = rm;
+  _Bool has = in_bool();
+  size_t len0 = 0;
+  Node *n0 = has ? mk_private_node(&len0) : 0;
+  b.node_ = n0;
+  b.size_ = in_size();
+  int live0 = g_live_blocks;
+  StringBuilder__dtor(&b);
+  COVER(has); COVER(!has);
+#ifdef CANARY_BUILDER_DTOR
+  CHECK(g_dealloc_calls == (has && len0 != 3 ? 1u : 0u), "C06: the private node is released exactly once, iff there is one");
+#else
+  CHECK(g_dealloc_calls == (has ? 1u : 0u), "C06: the private node is released exactly once, iff there is one");
+#endif
+  CHECK(g_live_blocks == live0 - (has ? 1 : 0) && (!has || ledger_size(n0, GONE) == GONE), "exactly that block");
+  CHECK(g_alloc_calls + g_realloc_calls == 0 && rm->overflowed_ == ov0, "nothing requested, overflowed_ untouched");
+}
+
+void h_buffer_reserve(void) {
+  struct Allocator *a = verif_allocator(0);
+  struct ResourceManager *rm = mk_rm(a);
+  _Bool ov0 = rm->overflowed_;
+  struct StringBuffer b;
+  b.resources_ = rm;
+  _Bool has = in_bool();
+  size_t len0 = 0;
+  Node *n0 = has ? mk_private_node(&len0) : 0;
+  b.node_ = n0;
+  b.size_ = in_size();
+  __CPROVER_assume(!has || b.size_ <= len0); /* INV */
+  size_t cap = in_size();
+  int live0 = g_live_blocks;
+  char *p = StringBuffer__reserve(&b, cap);
+  _Bool reuse = has && cap <= len0;
+  COVER(reuse); COVER(has && !reuse && p != 0); COVER(has && !reuse && p == 0 && cap <= MAXLEN); COVER(!has && p != 0 && cap == MAXLEN);
+  COVER(cap > MAXLEN && has); COVER(!has && p == 0 && !ov0);
+  CHECK(g_realloc_calls == 0, "reserve never reallocates");
+  if (reuse) {
+    CHECK(g_alloc_calls + g_dealloc_calls == 0 && b.node_ == n0 && (uint64_t)n0->length == len0, "C06: a large enough node is reused");
+    CHECK(p == n0->data && b.size_ == cap && n0->data[cap] == 0, "room for cap bytes, NUL at data[cap] inside the block");
+    CHECK(rm->overflowed_ == ov0, "overflowed_ untouched");
+  } else {
+    CHECK(g_dealloc_calls == (has ? 1u : 0u) && (!has || ledger_size(n0, GONE) == GONE), "C06: a too small node is released exactly once");
+    CHECK(g_alloc_calls == (cap <= MAXLEN ? 1u : 0u), "C19/C06: the cap is checked before the allocator is asked");
+    if (p) {
+      CHECK(b.node_ != 0 && p == b.node_->data && cap <= MAXLEN, "the buffer is the data area of the new node");
+#ifdef CANARY_BUFFER_RESERVE
+      CHECK((uint64_t)b.node_->length == cap + (cap == 6) && ledger_size(b.node_, GONE) == spec_block_size(cap), "C19: capacity stored without truncation, block of cap+1+offsetof(data)");
+#else
+      CHECK((uint64_t)b.node_->length == cap && ledger_size(b.node_, GONE) == spec_block_size(cap), "C19: capacity stored without truncation, block of cap+1+offsetof(data)");
+#endif
+      CHECK(b.size_ == cap && b.node_->data[cap] == 0, "NUL at data[cap] inside the block");
+      CHECK(g_live_blocks == live0 + (has ? 0 : 1) && rm->overflowed_ == ov0 && b.node_->references == 1, "exactly one private block");
+    } else {
+      CHECK(b.node_ == 0, "C05: failure => null and no dangling node_");
+      CHECK(rm->overflowed_ && g_live_blocks == live0 - (has ? 1 : 0), "C05: failure reported by overflowed(); nothing live");
+    }
+  }
+  if (b.node_) CHECK(b.size_ <= (size_t)b.node_->length, "INV preserved: size_ <= node_->length");
+}
+
+void h_buffer_dtor(void) {
+  struct Allocator *a = verif_allocator(0);
+  struct ResourceManager *rm = mk_rm(a);
+  struct StringBuffer b;
+  b.resources_ = rm;
+  _Bool has = in_bool();
+  size_t len0 = 0;
+  Node *n0 = has ? mk_private_node(&len0) : 0;
+  b.node_ = n0;
+  b.size_ = in_size();
+  int live0 = g_live_blocks;
+  StringBuffer__dtor(&b);
+  COVER(has); COVER(!has);
+#ifdef CANARY_BUFFER_DTOR
+  CHECK(g_dealloc_calls == (has && len0 != 3 ? 1u : 0u), "C06: the private node is released exactly once, iff there is one");
+#else
+  CHECK(g_dealloc_calls == (has ? 1u : 0u), "C06: the private node is released exactly once, iff there is one");
+#endif
+  CHECK(g_live_blocks == live0 - (has ? 1 : 0) && (!has || ledger_size(n0, GONE) == GONE), "exactly that block");
+  CHECK(g_alloc_calls + g_realloc_calls == 0, "nothing requested");
 }
 #endif
